@@ -1,0 +1,81 @@
+//go:build verif
+
+package encoder
+
+import (
+	"context"
+	"io"
+)
+
+// VerifPoison, when set by the /verif harness, fills every pooled object with junk as it goes back
+// to its pool: whatever a later call reads without having written it first shows in its result.
+var VerifPoison bool
+
+type verifJunkKey struct{}
+
+type verifJunkWriter struct{}
+
+func (verifJunkWriter) Write(p []byte) (int, error) { panic("verif: write to a stale debug writer") }
+func (verifJunkWriter) Close() error                { panic("verif: close of a stale debug writer") }
+
+var verifJunkScheme = &ColorScheme{
+	Int:       EncodeFormat{Header: "JUNK<", Footer: ">JUNK"},
+	Uint:      EncodeFormat{Header: "JUNK<", Footer: ">JUNK"},
+	Float:     EncodeFormat{Header: "JUNK<", Footer: ">JUNK"},
+	Bool:      EncodeFormat{Header: "JUNK<", Footer: ">JUNK"},
+	String:    EncodeFormat{Header: "JUNK<", Footer: ">JUNK"},
+	Binary:    EncodeFormat{Header: "JUNK<", Footer: ">JUNK"},
+	ObjectKey: EncodeFormat{Header: "JUNK<", Footer: ">JUNK"},
+	Null:      EncodeFormat{Header: "JUNK<", Footer: ">JUNK"},
+}
+
+func verifPoisonCtx(c *RuntimeContext) {
+	if !VerifPoison {
+		return
+	}
+	c.Option.Flag = 0xff &^ DebugOption
+	c.Option.ColorScheme = verifJunkScheme
+	c.Option.Context = context.WithValue(context.Background(), verifJunkKey{}, "junk")
+	c.Option.DebugOut = verifJunkWriter{}
+	c.Option.DebugDOTOut = verifJunkWriter{}
+	c.Context = c.Option.Context
+	buf := c.Buf[:cap(c.Buf)]
+	for i := range buf {
+		buf[i] = 0xAA
+	}
+	c.Buf = buf
+	mb := c.MarshalBuf[:cap(c.MarshalBuf)]
+	for i := range mb {
+		mb[i] = 0xAB
+	}
+	c.MarshalBuf = mb
+	for i := range c.Ptrs {
+		c.Ptrs[i] = 0xdead0000 + uintptr(i)*8 + 1 // odd: never a valid pointer to anything the VM loads
+	}
+	c.KeepRefs = append(c.KeepRefs[:0], nil, nil, nil)
+	c.SeenPtr = append(c.SeenPtr[:0], 1, 2, 3, 4, 5)
+	c.BaseIndent = 77
+	c.Prefix = []byte("JUNKPREFIX")
+	c.IndentStr = []byte("JUNKINDENT")
+}
+
+func verifPoisonMapCtx(c *MapContext) {
+	if !VerifPoison {
+		return
+	}
+	c.Start = 1 << 30
+	c.First = 1 << 30
+	c.Idx = 1 << 20
+	c.Len = 1 << 20
+	junk := []byte("JUNKKEY")
+	for i := range c.Slice.Items {
+		c.Slice.Items[i] = MapItem{Key: junk, Value: junk}
+	}
+	buf := c.Buf[:cap(c.Buf)]
+	for i := range buf {
+		buf[i] = 0xAC
+	}
+	c.Buf = buf
+}
+
+var _ io.Writer = verifJunkWriter{}
